@@ -196,7 +196,8 @@ fn decoder_running(rep: &mut Report, rng: &mut Rng) {
         if calls > 400_000 {
             return;
         }
-        let chunk = 1 + rng.size_biased(3000);
+        // (zero-length input calls included: a call without new input can still produce output)
+        let chunk = if rng.chance(1, 4) { 0 } else { 1 + rng.size_biased(3000) };
         let end = (in_pos + chunk).min(g.bytes.len());
         let more = end < g.bytes.len();
         let budget = *rng.pick(&[usize::MAX, usize::MAX, 1, 7, 300, 5000]);
@@ -298,7 +299,7 @@ fn stream_adler(rep: &mut Report, rng: &mut Rng) {
         if calls > 400_000 {
             break;
         }
-        let end = (pos + 1 + rng.size_biased(5000)).min(comp.len());
+        let end = if rng.chance(1, 4) { pos } else { (pos + 1 + rng.size_biased(5000)).min(comp.len()) };
         s.next_in = unsafe { comp.as_ptr().add(pos) };
         s.avail_in = (end - pos) as u32;
         s.next_out = obuf.as_mut_ptr();
@@ -329,7 +330,7 @@ fn stream_adler(rep: &mut Report, rng: &mut Rng) {
                 break;
             }
         }
-        if rc == 1 || (rc < 0 && rc != -5) || (cons == 0 && w == 0 && end == comp.len()) {
+        if rc == 1 || (rc < 0 && rc != -5) || (cons == 0 && w == 0 && pos >= comp.len()) {
             break;
         }
     }
